@@ -24,6 +24,7 @@ TRANSLATORS = [
     ('translator.gen_index', 'GenIndex.v'),
     ('translator.gen_writers', 'GenWriters.v'),
     ('translator.gen_readers', 'GenReaders.v'),
+    ('translator.gen_effects', 'GenEffects.v'),
 ]
 
 FORBIDDEN = re.compile(r'\b(Admitted|admit|Axiom|Axioms|Parameter|Parameters|Conjecture|Conjectures|Abort All)\b'
